@@ -823,6 +823,9 @@ pub fn n_random(prop: &str, tier: u8) -> usize {
     match (prop, tier) {
         ("C06", 0) => 300,
         ("C06", _) => 8000,
+        // C01 runs the Arc programs for their completeness clause only (handles are one more kind of shared object)
+        ("C01", 0) => 400,
+        ("C01", _) => 4000,
         (_, 0) => 1200,
         (_, _) => 12_000,
     }
